@@ -89,7 +89,11 @@ def gen_case(rng, tier):
         if pre["order"] == order and pre["reverse"] == reverse:
             pre["reverse"] = [c for c in po if c not in reverse][:1]
     return {"table": {"name": "d", "cols": cols, "rows": rows}, "fn": fn, "vcol": vcol, "partition": part, "order": order,
-            "reverse": reverse, "arg": arg, "prefilter": rng.random() < 0.2, "pre": pre}
+            "reverse": reverse, "arg": arg, "prefilter": rng.random() < 0.2, "pre": pre,
+            # the partition column is computed by the step just before the window (p2 := o1)
+            "computed_partition": ("p2" in part) and rng.random() < 0.35,
+            # the window is declared on the bare table and composed onto the row filter with >>
+            "compose": rng.random() < 0.3}
 
 
 def expr_text(case):
@@ -105,19 +109,35 @@ def build(case):
     from data_algebra.view_representations import TableDescription
 
     t = TableDescription(table_name="d", column_names=[c for c, _ in case["table"]["cols"]])
+    head = None
     if case.get("prefilter"):
-        t = t.select_rows("w > -100")
+        if case.get("compose"):
+            head = t.select_rows("w > -100")
+        else:
+            t = t.select_rows("w > -100")
+    if case.get("computed_partition"):
+        t = t.extend({"p2": "o1"})
     pb = case["partition"] if case["partition"] else 1
     ob = case["order"] if case["order"] else None
     if case.get("pre"):
         t = t.extend({"r0": "_row_number()"}, partition_by=pb, order_by=case["pre"]["order"], reverse=case["pre"]["reverse"] or None)
-    return t.extend({"r": expr_text(case)}, partition_by=pb, order_by=ob, reverse=case["reverse"] or None)
+    res = t.extend({"r": expr_text(case)}, partition_by=pb, order_by=ob, reverse=case["reverse"] or None)
+    if head is not None:
+        res = head >> res
+    return res
 
 
 def judge(b, case, sq, pg):
     cols = [c for c, _ in case["table"]["cols"]]
     rows = case["table"]["rows"]
     frame = core.table_frame(case["table"])
+    if case.get("computed_partition"):
+        rows = [list(r) for r in rows]
+        for r in rows:
+            r[cols.index("p2")] = r[cols.index("o1")]
+        b.count("computed_partition_columns")
+    if case.get("prefilter") and case.get("compose"):
+        b.count("composed_windows")
     want = window_reference(cols, rows, case["fn"], case["vcol"], case["partition"], case["order"], case["reverse"], case["arg"])
     by_uid = {r[cols.index("uid")]: w for r, w in zip(rows, want)}
     by_uid0 = None
